@@ -1044,7 +1044,23 @@ pub fn c08(tier: &str) -> Vec<Family> {
             }
         }
     }
+    // Very many events accepted for one instant, on the real multi-threaded executor: every one fires.
+    let mk_big = |busy: usize| -> Vec<Scenario> {
+        let mut big = vec![];
+        for n in [700usize, 1500] {
+            let spec = big_fan(n, busy, false);
+            // The events for the busy models come first (one compound task delivers all of them in order).
+            let mut cmds: Vec<Cmd> = (n + 1..=n + busy).map(|i| Cmd::Sched { node: i, kind: SKind::Once, when: When::Rel(1), tag: 3, val: i as i64, slot: 0 }).collect();
+            cmds.extend((1..=n).map(|i| Cmd::Sched { node: i, kind: SKind::Once, when: When::Rel(1), tag: 2, val: i as i64, slot: 0 }));
+            cmds.push(Cmd::Step);
+            cmds.push(Cmd::Step);
+            big.push(scn(format!("same_instant/{}events", n), &spec, cmds));
+        }
+        big
+    };
     vec![
+        Family::new("same_instant_mt2", TAGS_SCHED_BIG, mk_big(1)).uncontrolled(2, 2).hang_violation(),
+        Family::new("same_instant_mt4", TAGS_SCHED_BIG, mk_big(3)).uncontrolled(4, 2).hang_violation(),
         Family::new("request_validation", TAGS_SCHED, sc).hang_violation(),
         Family::new("requests_from_init", TAGS_SCHED_INIT, sc_init).hang_violation(),
         Family::new("requests_from_init@-1s", TAGS_SCHED_INIT, {
@@ -1061,6 +1077,9 @@ pub fn c08(tier: &str) -> Vec<Family> {
         .epoch(-1),
     ]
 }
+
+/// Accepted events fire (and the stepping call does not give up on them with a bogus stall report).
+pub const TAGS_SCHED_BIG: &[&str] = &["sched_missed", "sched_dup", "sched_wrong_time", "sched_overdue", "report_exact", "error_class"];
 
 pub const TAGS_SCHED_INIT: &[&str] = &[
     "sched_validation", "pending_not_future", "sched_missed", "sched_dup", "sched_wrong_time", "sched_overdue", "time_read", "handler_time",
@@ -1280,6 +1299,33 @@ pub fn c10(tier: &str) -> Vec<Family> {
     )
     .cap(cap)];
     out.push(fam_c);
+    // Periodic source actions whose source has several connections to one model with a
+    // small mailbox (the deliveries of one occurrence have to wait for space).
+    {
+        let mut sc_m = vec![];
+        for c in [1usize, 2] {
+            for nconn in [2usize, 3, 4] {
+                let a = NodeSpec::new("A", c).script(1, vec![Op::ReadTime]);
+                let mut spec = BenchSpec::new(vec![a]);
+                let mut conns = vec![to(0); nconn];
+                conns[nconn - 1] = tom(0, Mode::Map(100));
+                spec.srcs = vec![conns];
+                let spec = Arc::new(spec);
+                for (pi, p) in [1u64, 2].iter().enumerate() {
+                    let mut cmds = vec![SchedSrc { src: 0, kind: SKind::Periodic(*p), when: When::Abs(1), tag: 1, val: 10, slot: 0 }];
+                    if pi == 1 {
+                        cmds.push(SchedSrc { src: 0, kind: SKind::KeyedPeriodic(1), when: When::Abs(2), tag: 1, val: 20, slot: 1 });
+                    }
+                    for tail in [vec![StepUntil(When::Abs(4))], vec![Step, Step, StepUntil(When::Abs(4))]] {
+                        let mut c2 = cmds.clone();
+                        c2.extend(tail);
+                        sc_m.push(scn(format!("multi_conn/cap{}/conns{}/p{}/{}", c, nconn, p, c2.len()), &spec, c2));
+                    }
+                }
+            }
+        }
+        out.push(Family::new("periodic_sources_multi", &["sched_missed", "sched_dup", "sched_wrong_time", "step_time", "sched_overdue", "handler_time", "cmd_time", "delivery_lost", "delivery_dup"], sc_m).cap(cap));
+    }
     // The same series with start times before the epoch and crossing it.
     if let Some(base) = out.first() {
         let thin: Vec<Scenario> = base.scenarios.iter().enumerate().filter(|(i, _)| tier != "quick" || i % 4 == 0).map(|(_, s)| s.clone()).collect();
@@ -1717,7 +1763,14 @@ pub fn c16(tier: &str) -> Vec<Family> {
     sc.push(scn("names/panic", &spec, vec![pe(0, 1, 1)]));
     sc.push(scn("names/norecipient", &spec, vec![pe(2, 2, 1)]));
     sc.push(scn("names/deadlock", &spec, vec![pe(2, 3, 1)]));
-    vec![Family::new(
+    let tags_h: &'static [&'static str] = &[
+        "init_twice", "init_late", "init_foreign", "init_missing", "before_init", "name", "delivery_lost", "delivery_dup",
+        "error_class", "report_exact", "half_handler", "pending_send",
+    ];
+    // Many models initialised on the real multi-threaded executor; the hub's init wakes all
+    // of them at once (one worker schedules far more tasks than its local queue holds).
+    let mk_big = |busy: usize| -> Vec<Scenario> { [700usize, 1500].iter().map(|n| scn(format!("init_fan_out/{}units", n), &big_fan(*n, busy, true), vec![])).collect() };
+    vec![Family::new("init_fan_out_mt2", tags_h, mk_big(1)).uncontrolled(2, 2).hang_violation(), Family::new("init_fan_out_mt4", tags_h, mk_big(3)).uncontrolled(4, 2).hang_violation(), Family::new(
         "hierarchies",
         &[
             "init_twice",
@@ -1736,6 +1789,28 @@ pub fn c16(tier: &str) -> Vec<Family> {
         sc,
     )
     .cap(cap)]
+}
+
+/// A hub whose output 0 is connected to `n` idle unit models (nodes 1..=n) and whose output 1
+/// is connected to `busy` models (nodes n+1..) whose handler blocks its worker thread for a while,
+/// so that the worker running the hub is not relieved by work stealing. With `from_init` the hub
+/// occupies the busy models and then broadcasts from its `init`; otherwise the bench is meant to be
+/// driven by scheduled events (tag 2 to units, tag 3 to busy models).
+pub fn big_fan(n: usize, busy: usize, from_init: bool) -> Arc<BenchSpec> {
+    let conns: Vec<Conn> = (1..=n).map(to).collect();
+    let busy_conns: Vec<Conn> = (n + 1..=n + busy).map(to).collect();
+    let mut hub = NodeSpec::new("hub", 4).out(conns).out(busy_conns).script(1, vec![sendp(1, 3, 0), sendp(0, 2, 7)]);
+    if from_init {
+        hub = hub.init(vec![sendc(1, 3, 0), sendc(0, 2, 1)]);
+    }
+    let mut nodes = vec![hub];
+    for i in 0..n {
+        nodes.push(NodeSpec::new(&format!("u{}", i), 2));
+    }
+    for i in 0..busy {
+        nodes.push(NodeSpec::new(&format!("busy{}", i), 2).script(3, vec![Op::Block(120)]));
+    }
+    Arc::new(BenchSpec::new(nodes))
 }
 
 // ---------------------------------------------------------------------------
